@@ -479,12 +479,14 @@ def part_namesake(ctx, shard):
             for order in ("ab", "ba"):
                 for shape in ("array", "scalar"):
                     for warm in (False, True):
-                        if scenario == "stale-after-redefinition":
+                        if scenario in ("stale-after-redefinition", "stale-after-redefinition-same-scale"):
+                            # same-scale: only the DIMENSION tells the old unit from the new one (w9: equality shortcut on
+                            # registry identity + expression)
                             reg = UnitRegistry()
                             reg.add("code_x", 2.0, udims.length)
                             a = _nq(reg, "code_x", shape, 0)
                             reg.remove("code_x")
-                            reg.add("code_x", 3.0, udims.time)
+                            reg.add("code_x", 3.0 if scenario == "stale-after-redefinition" else 2.0, udims.time)
                             b = _nq(reg, "code_x", shape, 1)
                             if warm:
                                 try:
@@ -543,7 +545,7 @@ def _nq(reg, unit, shape, k):
 
 
 def run(ctx):
-    harness.pmap(ctx, part_namesake, [["stale-after-redefinition"], ["two-registries"]])
+    harness.pmap(ctx, part_namesake, [["stale-after-redefinition"], ["two-registries"], ["stale-after-redefinition-same-scale"]])
     triples = DIM_TRIPLES_QUICK
     shards = [[(oi, t)] for oi in range(len(OPS)) for t in triples]
     harness.pmap(ctx, part, shards)
